@@ -2,6 +2,8 @@ package mc
 
 import (
 	"fmt"
+
+	"google.golang.org/grpc/codes"
 	"sort"
 	"strings"
 
@@ -28,6 +30,8 @@ func c10Scenarios(thorough bool) []*Scenario {
 		{Name: "S5d Set, then a delete of its container, connected; the device restarts empty anywhere", Cfg: WorldConfig{Targets: []string{"T1"}}, Init: connectAll("T1"),
 			Requests: []SetReqOrCall{setReq("T1.leafA=1+sub/leafC=c", upd("T1", "/cont/leafA", "1"), upd("T1", "/cont/sub/leafC", "c")), setReq("del /cont/sub + leafA2=2", del("T1", "/cont/sub"), upd("T1", "/cont/leafA2", "2"))},
 			Faults:   []FaultSpec{faultDeviceRestart("T1")}, FaultBudget: 1},
+		{Name: "S5u two Sets on T1 connected; the device restarts empty and is unavailable for one request, anywhere", Cfg: WorldConfig{Targets: []string{"T1"}}, Init: connectAll("T1"),
+			Requests: []SetReqOrCall{a("leafA", "1"), a("leafA2", "2")}, Faults: []FaultSpec{faultDeviceRestart("T1"), faultDeviceAnswers("T1", codes.Unavailable, 1)}, FaultBudget: 2},
 		{Name: "S4r Set and its rollback, connected; the device restarts empty anywhere", Cfg: WorldConfig{Targets: []string{"T1"}}, Init: connectAll("T1"),
 			Requests: []SetReqOrCall{a("leafA", "1"), rollbackReq("rollback(1)", 1)}, Faults: []FaultSpec{faultDeviceRestart("T1")}, FaultBudget: 1},
 	}
